@@ -24,6 +24,8 @@ pub enum Handler {
     ReadSomeRespond,
     ReadAllRespond,
     ReadAllDrop,
+    /// answer with a response whose length is not declared (streamed / buffered by the library)
+    RespondUnknownLength,
 }
 
 #[derive(Clone, Debug, Serialize, Deserialize)]
@@ -264,6 +266,7 @@ fn run_in_child(case: &RawCase, unix: &tiny_http::Server, unix_path: &str, tcp: 
                                     drop(rq);
                                     Ok(())
                                 }
+                                Handler::RespondUnknownLength => rq.respond(tiny_http::Response::new(tiny_http::StatusCode(200), vec![], std::io::Cursor::new(b"streamed body".to_vec()), None, None)),
                                 _ => rq.respond(tiny_http::Response::from_string("ok")),
                             }
                         }));
@@ -440,7 +443,7 @@ fn lit(s: &str) -> Piece {
 }
 
 fn handler_strategy() -> BoxedStrategy<Handler> {
-    proptest::sample::select(vec![Handler::RespondNoRead, Handler::DropNoRead, Handler::ReadSomeRespond, Handler::ReadAllRespond, Handler::ReadAllDrop]).boxed()
+    proptest::sample::select(vec![Handler::RespondNoRead, Handler::DropNoRead, Handler::ReadSomeRespond, Handler::ReadAllRespond, Handler::ReadAllDrop, Handler::RespondUnknownLength, Handler::RespondUnknownLength]).boxed()
 }
 
 pub fn c14_strategy(thorough: bool) -> BoxedStrategy<RawCase> {
@@ -489,6 +492,9 @@ pub fn c14_strategy(thorough: bool) -> BoxedStrategy<RawCase> {
         "POST /m HTTP/1.1\r\nHost: h\r\nExpect: 100-continue\r\nContent-Length: 3\r\n\r\nabc",
         "GET /m HTTP/1.0\r\nConnection: keep-alive\r\n\r\nGET /n HTTP/1.1\r\nHost: h\r\nConnection: upgrade\r\nUpgrade: websocket\r\n\r\nrawdata",
         "HEAD /m HTTP/1.1\r\nHost: h\r\nTE: chunked;q=0.5, identity;q=0.1\r\n\r\n",
+        "HEAD /m HTTP/1.0\r\nHost: h\r\n\r\n",
+        "HEAD /m HTTP/1.1\r\nHost: h\r\nTE: identity\r\n\r\n",
+        "GET /m HTTP/1.0\r\nConnection: keep-alive\r\nTE: chunked\r\n\r\nHEAD /n HTTP/0.9\r\n\r\n",
     ]), proptest::collection::vec((any::<proptest::sample::Index>(), prop_oneof![Just(0u8), Just(0x0d), Just(0x0a), Just(0x80), Just(0xff), Just(b' '), Just(b':'), any::<u8>()], 0u8..3), 1..6), proptest::option::weighted(0.4, any::<proptest::sample::Index>()), handler_strategy(), any::<bool>())
         .prop_map(|(base, muts, trunc, handler, tcp)| {
             let mut b = base.as_bytes().to_vec();
@@ -528,5 +534,14 @@ pub fn c14_strategy(thorough: bool) -> BoxedStrategy<RawCase> {
         any::<bool>(),
     )
         .prop_map(|((req, max), div, handler, tcp)| RawCase { kind: "repeated-request".into(), pieces: vec![Piece::Repeat(req.as_bytes().to_vec(), (max / div).max(1))], handler, tcp, declared_beyond_sent: false, reset_storm: 0 });
-    prop_oneof![4 => declared, 3 => chunk, 2 => many_headers, 2 => long_line, 2 => te, 5 => mutated, 1 => storm, 2 => repeated].boxed()
+    let unusual = (proptest::sample::select(vec![
+        "HEAD /u HTTP/1.0\r\nHost: h\r\n\r\n",
+        "HEAD /u HTTP/1.1\r\nHost: h\r\nTE: identity\r\n\r\n",
+        "HEAD /u HTTP/0.9\r\n\r\n",
+        "GET /u HTTP/0.9\r\n\r\n",
+        "GET /u HTTP/1.0\r\nTE: chunked\r\n\r\n",
+        "OPTIONS * HTTP/1.1\r\nHost: h\r\nTE: trailers, chunked;q=0.0\r\n\r\n",
+        "HEAD /u HTTP/1.1\r\nHost: h\r\nConnection: close\r\nTE: chunked\r\n\r\n",
+    ]), handler_strategy(), any::<bool>()).prop_map(|(req, handler, tcp)| RawCase { kind: "unusual-valid-head".into(), pieces: vec![lit(req)], handler, tcp, declared_beyond_sent: false, reset_storm: 0 });
+    prop_oneof![4 => declared, 3 => chunk, 2 => many_headers, 2 => long_line, 2 => te, 5 => mutated, 1 => storm, 2 => repeated, 3 => unusual].boxed()
 }
